@@ -204,6 +204,12 @@ class Param:
 
 def _unique_name(params: Any) -> str:
     """Create a unique name for parameter-class instance `params`"""
+    if isinstance(params, dict):
+        # `dict`-valued parameters, as of `ExternalModule`s with `paramtype=dict`: hash their (sorted) JSON
+        jsonstr = json.dumps(params, sort_keys=True, default=hdl21_naming_encoder)
+        h = hashlib.new("md5", usedforsecurity=False)
+        h.update(bytes(jsonstr, encoding="utf-8"))
+        return h.hexdigest()
     if not isparamclass(params):
         raise RuntimeError(f"Invalid parameter-class instance {params}")
 
